@@ -635,7 +635,11 @@ impl TableNamespace {
     }
 
     fn set_dirty(&mut self, transaction: &WriteTransaction) {
+        #[cfg(redb_verif)]
+        crate::verif::pause("X.set_dirty");
         transaction.dirty.store(true, Ordering::Release);
+        #[cfg(redb_verif)]
+        crate::verif::pause("X.set_dirty.stored");
         if !transaction.transaction_tracker.any_savepoint_exists() {
             // No savepoints exist, and we don't allow savepoints to be created in a dirty transaction
             // so we can disable allocation tracking now
@@ -1275,6 +1279,8 @@ impl WriteTransaction {
     /// Returns [`SavepointError::InvalidSavepoint`] if the transaction is "dirty" (a data
     /// table has been opened, renamed, or deleted, or a savepoint has been restored)
     pub fn ephemeral_savepoint(&self) -> Result<Savepoint, SavepointError> {
+        #[cfg(redb_verif)]
+        crate::verif::pause("X.esp");
         // Serialize the dirty check and savepoint registration against
         // `TableNamespace::set_dirty()`, which runs under the same tables lock. Without this,
         // a concurrent first table-open (legal since `WriteTransaction: Sync`) can read the
@@ -1284,11 +1290,15 @@ impl WriteTransaction {
         // (reclaimed only by a full repair).
         let (id, transaction_id) = {
             let _tables = self.tables.lock().unwrap();
+            #[cfg(redb_verif)]
+            crate::verif::pause("X.esp.locked");
             if self.dirty.load(Ordering::Acquire) {
                 return Err(SavepointError::InvalidSavepoint);
             }
             self.allocate_savepoint()?
         };
+        #[cfg(redb_verif)]
+        crate::verif::pause("X.esp.unlocked");
         #[cfg(feature = "logging")]
         debug!("Creating savepoint id={id:?}, txn_id={transaction_id:?}");
 
@@ -1701,6 +1711,8 @@ impl WriteTransaction {
     }
 
     fn commit_inner_helper(&mut self) -> Result<(), CommitError> {
+        #[cfg(redb_verif)]
+        crate::verif::pause("X.commit");
         // Quick-repair requires 2-phase commit
         if self.quick_repair {
             self.two_phase_commit = true;
@@ -1946,6 +1958,8 @@ impl WriteTransaction {
     }
 
     fn abort_inner_impl(&mut self) -> Result {
+        #[cfg(redb_verif)]
+        crate::verif::pause("X.abort");
         #[cfg(feature = "logging")]
         debug!("Aborting transaction id={:?}", self.transaction_id);
         self.tables
@@ -1962,6 +1976,8 @@ impl WriteTransaction {
             .unwrap()
             .apply_on_abort(&self.transaction_tracker);
         self.mem.check_io_errors()?;
+        #[cfg(redb_verif)]
+        crate::verif::pause("X.abort.rollback");
         self.page_allocator().rollback_all();
         #[cfg(feature = "logging")]
         debug!("Finished abort of transaction id={:?}", self.transaction_id);
@@ -1973,6 +1989,8 @@ impl WriteTransaction {
         user_root: Option<BtreeHeader>,
         allocated_pages: Vec<PageNumber>,
     ) -> Result {
+        #[cfg(redb_verif)]
+        crate::verif::pause("X.durable_commit");
         // Write out the freed-page records that earlier non-durable commits kept in memory, so
         // that they survive from here on like any other durable record.
         for (transaction_id, pages) in self.mem.take_unpersisted_data_freed() {
@@ -2040,6 +2058,8 @@ impl WriteTransaction {
         };
 
         let page_allocator = self.page_allocator();
+        #[cfg(redb_verif)]
+        crate::verif::pause("X.durable_commit.mem_commit");
         self.mem.commit(
             user_root,
             system_root,
@@ -2050,6 +2070,8 @@ impl WriteTransaction {
         // All of this transaction's allocations are durable; discard the per-txn tracker.
         let _ = page_allocator.take_allocated_since_commit();
 
+        #[cfg(redb_verif)]
+        crate::verif::pause("X.durable_commit.published");
         // Mark any pending non-durable commits as fully committed.
         self.transaction_tracker.clear_pending_non_durable_commits();
 
@@ -2063,6 +2085,8 @@ impl WriteTransaction {
 
         self.apply_savepoint_state_on_commit();
 
+        #[cfg(redb_verif)]
+        crate::verif::pause("X.durable_commit.epilogue");
         if self.post_commit_free == PostCommitFree::Enabled {
             self.process_data_freed_pages_after_commit(
                 user_root,
@@ -2080,6 +2104,8 @@ impl WriteTransaction {
         page_allocator: &PageAllocator,
         savepoint_horizon: u64,
     ) -> Result {
+        #[cfg(redb_verif)]
+        crate::verif::pause("X.epilogue");
         let epilogue_transaction = self.transaction_id.next();
         let mut free_until = self
             .transaction_tracker
@@ -2096,6 +2122,8 @@ impl WriteTransaction {
             free_until = free_until.min(TransactionId::new(savepoint_horizon).next());
         }
 
+        #[cfg(redb_verif)]
+        crate::verif::pause("X.epilogue.horizon");
         let mut freed_any = false;
         let (system_root, stored_system_freed_pages, extracted_data_transactions) = {
             let mut system_tables = self.system_tables.lock().unwrap();
@@ -2133,6 +2161,8 @@ impl WriteTransaction {
         let epilogue_allocations = page_allocator.take_allocated_since_commit();
         self.mem
             .record_post_commit_allocations(epilogue_allocations.iter().copied());
+        #[cfg(redb_verif)]
+        crate::verif::pause("X.epilogue.publish");
         self.mem.non_durable_commit(
             user_root,
             system_root,
@@ -2163,12 +2193,16 @@ impl WriteTransaction {
         allocated_pages: Vec<PageNumber>,
         stored_data_freed_pages: bool,
     ) -> Result {
+        #[cfg(redb_verif)]
+        crate::verif::pause("X.nd_commit");
         let free_until_transaction = self
             .transaction_tracker
             .oldest_live_read_nondurable_transaction()
             .map_or(self.transaction_id, |x| x.next());
         self.process_freed_pages_nondurable(free_until_transaction)?;
 
+        #[cfg(redb_verif)]
+        crate::verif::pause("X.nd_commit.horizon");
         let mut post_commit_frees = vec![];
 
         let (system_root, stored_system_freed_pages) = {
@@ -2199,6 +2233,8 @@ impl WriteTransaction {
         };
 
         let newly_unpersisted = self.page_allocator().take_allocated_since_commit();
+        #[cfg(redb_verif)]
+        crate::verif::pause("X.nd_commit.publish");
         self.mem.non_durable_commit(
             user_root,
             system_root,
@@ -2217,6 +2253,8 @@ impl WriteTransaction {
             stored_freed_pages,
         );
 
+        #[cfg(redb_verif)]
+        crate::verif::pause("X.nd_commit.registered");
         for page in post_commit_frees {
             let removed = self.mem.free_if_unpersisted(page, &PageTracker::ignore());
             assert!(removed);
@@ -2609,8 +2647,19 @@ impl WriteTransaction {
     }
 }
 
+// Verification hook H4 (add-only, read-only): whether another thread currently holds the
+// `tables` mutex of this transaction
+#[cfg(redb_verif)]
+impl WriteTransaction {
+    pub fn verif_tables_locked(&self) -> bool {
+        self.tables.try_lock().is_err()
+    }
+}
+
 impl Drop for WriteTransaction {
     fn drop(&mut self) {
+        #[cfg(redb_verif)]
+        crate::verif::pause("X.wtx_drop");
         if !self.completed && !crate::panicking() && !self.mem.storage_failure() {
             #[allow(unused_variables)]
             if let Err(error) = self.abort_inner() {
